@@ -67,11 +67,23 @@ the implementation's own result when the predicate holds) -/
 def sampleOk (f : Fmt) (res : String) : Option (Option String) :=
   if res != "PANIC" && hexNat res < one f then some (some res) else some (some "a-real-posit-in-[0,1)")
 
+/-- C18: polynomial evaluation against its fused-dot-product definition -/
+def polySpec (f : Fmt) (deg : String) (xs : List String) : Option (Option String) :=
+  match xs with
+  | [] => none
+  | x :: cs =>
+    let c := cs.map hexNat
+    let r := if deg == "3a" then poly3a f (hexNat x) c else if deg == "4a" then poly4a f (hexNat x) c else poly f (hexNat x) c
+    some (some (toHex r))
+
 def handle (ws : List String) (res : String) : Option (Option String) :=
   match ws with
-  | "p8" :: "sample_seed" :: _ | "p8" :: "sample_r" :: _ => sampleOk p8 res
-  | "p16" :: "sample_seed" :: _ | "p16" :: "sample_r" :: _ => sampleOk p16 res
-  | "p32" :: "sample_seed" :: _ | "p32" :: "sample_r" :: _ => sampleOk p32 res
+  | "p8" :: "poly" :: d :: xs => polySpec p8 d xs
+  | "p16" :: "poly" :: d :: xs => polySpec p16 d xs
+  | "p32" :: "poly" :: d :: xs => polySpec p32 d xs
+  | "p8" :: "sample_seed" :: _ | "p8" :: "sample_raw" :: _ => sampleOk p8 res
+  | "p16" :: "sample_seed" :: _ | "p16" :: "sample_raw" :: _ => sampleOk p16 res
+  | "p32" :: "sample_seed" :: _ | "p32" :: "sample_raw" :: _ => sampleOk p32 res
   | "q8" :: "hist" :: toks => handleQ q8 toks
   | "q16" :: "hist" :: toks => handleQ q16 toks
   | "q32" :: "hist" :: toks => handleQ q32 toks
